@@ -29,6 +29,14 @@ CHECKS = {
    text="Enumerates the line-shape functions of tf_pwa.breit_wigner (L=0..8 x d in {1,3,5} x m0 x Gamma0 x mass lattice) and the registered particle models through ConfigLoader/Particle.__call__ (BW, default/BWR, BWR2, BWR_below, BWR_normal, BWR_coupling, GS_rho, BWR_LS (+fix_bug1), BWR_LS2, Flatte, FlatteC, one, x, exp, exp_com) against the documented formulas evaluated independently in numpy complex128: value, Im R > 0, R(m0) = i/(m0 Gamma0), Gamma(m0) = Gamma0, B_L(q0)=1, barrier polynomial = |theta_L(iz)|^2 from exact reverse Bessel coefficients, q^2-variants, symbolic denominators.",
    note="float64 tensor inputs; values compared above threshold, finiteness below; GS_rho at 1e-7 (documented pion masses are rounded to float32 inside the library).",
    technique="bounded-exhaustive enumeration of (model, L, d, parameters, mass lattice) against independent closed-form references"),
+ "C10": dict(level="exploration", ref="4-C10",
+   text="Owned randomness (Weyl sequences / explicit scripts). Enumerates 5 mass sets (generic, float32-exact, not float32-representable, massless, Q=1e-3 M) x n=2..6 x N in {1,2,17,200|1000} x 5 nestings of the chain generator + gen_mc + ConfigLoader.generate_phsp_p: exact count, on-shell, sum of momenta = parent at rest to 1e-12 M, fixed intermediate masses. Acceptance weight <= 1 on the full product lattice of the mass ranges (all corners and edges), before and after cal_max_weight; flatness decided by its algebraic sufficient conditions (weight * proposal density / prod q constant over the lattice, keep iff rnd < weight, isotropic angle map of the supplied numbers).",
+   note="The statistical claim 'uniform for all seeds' is replaced by its sufficient algebraic conditions under an owned RNG; no statistical test is run.",
+   technique="environment-answer enumeration with an owned RNG + bounded-exhaustive lattices against numpy kinematics"),
+ "C11": dict(level="exploration", ref="4-C11",
+   text="Four-vectors x velocities lattice (|v| up to 0.999, 8 directions, massless and massive): boost inverse, invariants, boost_matrix = boost, rest_vector, against an independent numpy Lorentz transformation; HelicityAngle.build_data -> cal_angle -> find_variable round trip for every chain shape with 3 and 4 final particles and every 5th (thorough: every) 5-body shape x mass patterns x (cos theta, phi) product lattices per vertex, plus an independent check of the constructed momenta; Dalitz.generate_p on lattices for 3 mass sets.",
+   note="Tolerances scale with gamma^2; squared masses compared for massless particles; cos(theta) lattice excludes +-1.",
+   technique="bounded-exhaustive enumeration of chain shapes x kinematic lattices with round-trip and independent reference oracles"),
 }
 
 NA_REASON = "check not built yet in this round (planned in DESIGN.md section 4)"
